@@ -200,6 +200,13 @@ pub fn fixed_bytes(seed: u8, len: usize) -> Vec<u8> {
 
 pub fn shelley_address(kind: usize, seed: u8, mainnet: bool) -> Vec<u8> {
     let net = if mainnet { 1u8 } else { 0u8 };
+    // kinds 4 and 5: base addresses whose stake part is a script hash
+    if kind == 4 || kind == 5 {
+        let mut v = vec![if kind == 4 { 0x20 } else { 0x30 } | net];
+        v.extend(fixed_bytes(seed, 28));
+        v.extend(fixed_bytes(seed.wrapping_add(53), 28));
+        return v;
+    }
     match kind % 4 {
         0 => {
             let mut v = vec![net];
@@ -1723,7 +1730,7 @@ impl<'t, 'c> Gen<'t, 'c> {
         let mainnet = self.t.chance(1, 3);
         for i in 0..self.prog.parties.len() {
             // base addresses (kind 0/2) carry a stake part; needed for withdrawals
-            let kind = if self.feat.withdrawals { [0usize, 2][self.t.pick(2)] } else { self.t.pick(4) };
+            let kind = if self.feat.withdrawals { [0usize, 2, 4, 5, 0, 4][self.t.pick(6)] } else { self.t.pick(6) };
             let seed = 10 + 37 * i as u8 + self.t.pick(5) as u8;
             self.party_addrs.push(shelley_address(kind, seed, mainnet));
         }
